@@ -454,3 +454,256 @@ Section Nary.
     - pose proof (first_ok_len _ _ Fo). lia.
   Qed.
 End Nary.
+
+(** *** n-ary nodes *)
+
+Section NaryCores.
+  Variable c : cfg.
+
+  Lemma goodM_first : forall w x, GoodM c w x -> wfb w x = true /\ FirstOk x.
+  Proof. intros w x [W _]. split; auto. apply first_ok_any. Qed.
+
+  Lemma seq_rest3 : forall lay w r xs k, Forall (GoodM c w) xs -> st 3 r ->
+      st 3 (append (txt_list (fun k x => txt (sub lay k) 3 x) (seq_sep (lay [])) (S k) xs) r).
+  Proof.
+    intros. apply (chain_rest _ _ r (GoodM c w) (st 3) (fun _ _ => True)); auto; [|apply linked_trivial].
+    intros k0 y rr [Wy My] Sr _. apply seq_sep_st3. apply (first_ok_any y _ 3%nat w); [lia|exact Wy|apply mstop_low; auto].
+  Qed.
+
+  Lemma alt_rest2 : forall lay w r xs k, Forall (GoodM c w) xs -> st 2 r ->
+      st 2 (append (txt_list (fun k x => txt (sub lay k) 2 x) (alt_sep (lay [])) (S k) xs) r).
+  Proof.
+    intros. apply (chain_rest _ _ r (GoodM c w) (st 2) (fun _ _ => True)); auto; [|apply linked_trivial].
+    intros k0 y rr [Wy My] Sr _. apply alt_sep_st2.
+  Qed.
+
+  Lemma fb_rest1 : forall lay w r xs k, Forall (GoodM c w) xs -> st 1 r ->
+      st 1 (append (txt_list (fun k x => txt (sub lay k) 1 x) (fb_sep (lay [])) (S k) xs) r).
+  Proof.
+    intros. apply (chain_rest _ _ r (GoodM c w) (st 1) (fun _ _ => True)); auto; [|apply linked_trivial].
+    intros k0 y rr [Wy My] Sr _. apply fb_sep_st1.
+  Qed.
+
+  Lemma sub_prop : forall lay k y rr, GoodM c true y -> st 5 rr -> sublink y rr ->
+      st 5 (append (no_sep (S k)) (append (txt (sub lay (S k)) 5 y) rr)).
+  Proof.
+    intros lay k y rr [Wy My] Sr Ly. cbn [no_sep append].
+    assert (Fo : first_ok (txt (sub lay (S k)) 5 y) rr).
+    { apply (first_ok_any y _ 5%nat true); [lia|exact Wy|]. split; [exact Sr|].
+      intros _. split.
+      - intros O. apply Ly. apply open_end_inword; auto.
+      - intros Pl. apply Ly. exact Pl. }
+    unfold st, c5. rewrite (first_ok_skips _ _ Fo). destruct Fo as (ch & s & _ & _ & D).
+    repeat split; intros; try lia; auto.
+  Qed.
+
+  Lemma core_seq : forall cs sp, Forall (M c) cs -> Core c (Sequence cs sp).
+  Proof.
+    intros cs sp HM lay ctx w p r n Hc W Hn [Hst _]. unfold parses. cbn [prec P body_txt body_loc].
+    cbn [prec] in Hst. cbn [wfb] in W. apply andb_true_iff in W as [W1 W2]. apply Nat.leb_le in W1.
+    pose proof (goodM_of c w cs HM W2) as G.
+    destruct cs as [|x [|y ys]]; cbn [List.length] in W1; try lia.
+    inversion G as [|? ? Gx Gxs]; subst. destruct Gx as [Wx Mx].
+    set (f := fun k x => txt (sub lay k) 3 x) in *.
+    set (g := fun k x q => loc c (sub lay k) 3 x q).
+    set (xs := y :: ys) in *.
+    cbn [body_txt] in Hn. fold f in Hn. cbn [txt_list append] in Hn |- *. rewrite app_assoc_s in Hn |- *.
+    change (f 0%nat x) with (txt (sub lay 0) 3 x) in *.
+    assert (S3 : st 3 r) by (eapply st_mono; [|exact Hst]; lia).
+    assert (R1 : st 3 (append (txt_list f (seq_sep (lay [])) 1 xs) r)) by (apply (seq_rest3 lay w); auto).
+    unfold Sq, sequence_expr. fold (I c n).
+    pose proof (Mx (sub lay 0) 3%nat w p _ n ltac:(lia) Wx Hn (mstop_low _ 3 x _ ltac:(lia) R1)) as X.
+    unfold parses in X. cbn [lvl Nat.eqb P] in X. rewrite X. clear X.
+    cbn [loc_list]. fold g. change (g 0%nat x p) with (loc c (sub lay 0) 3 x p).
+    destruct (loc c (sub lay 0) 3 x p) as [x' q1] eqn:E1. cbn [obind fst snd].
+    assert (Hn1 : (String.length (append (txt_list f (seq_sep (lay [])) 1 xs) r) < n)%nat)
+      by (rewrite length_app_s in Hn; lia).
+    pose proof (steps_list f g (seq_sep (lay [])) r n
+                  (fun j => do (_, j1) <- multiblanks1 j; I c n j1) (GoodM c w) (st 3) (fun _ _ => True)
+                  ltac:(intros k0 y0 rr G0 Sr _; destruct G0 as [Wy0 My0]; apply seq_sep_st3;
+                        apply (first_ok_any y0 _ 3%nat w); [lia|exact Wy0|apply mstop_low; auto])
+                  ltac:(intros k0 y0 rr q0 G0 Sr _ Hl; apply (seq_step c lay w n k0 y0 rr q0 G0 Sr Hl))
+                  xs 0%nat q1 Gxs (linked_trivial _ _ _ _ _) S3 Hn1) as St.
+    rewrite (loop_p_steps _ _ _ _ _ St).
+    2:{ apply seq_step_fails; cbn [rest]; apply Hst; lia. }
+    2:{ cbn [rest]. exact Hn1. }
+    pose proof (loc_list_nonempty g (fun k q => adv_str (seq_sep (lay []) k) q) 1 y ys q1) as Ne.
+    fold xs in Ne.
+    destruct (loc_list g (fun k q => adv_str (seq_sep (lay []) k) q) 1 xs q1) as [more q2].
+    cbn [obind fst snd] in *. destruct more as [|m0 more]; [congruence|].
+    rewrite from_range_pspan. reflexivity.
+  Qed.
+
+  Lemma core_alt : forall cs sp, Forall (M c) cs -> Core c (Alternative cs sp).
+  Proof.
+    intros cs sp HM lay ctx w p r n Hc W Hn [Hst _]. unfold parses. cbn [prec P body_txt body_loc].
+    cbn [prec] in Hst. cbn [wfb] in W. apply andb_true_iff in W as [W1 W2]. apply Nat.leb_le in W1.
+    pose proof (goodM_of c w cs HM W2) as G.
+    destruct cs as [|x [|y ys]]; cbn [List.length] in W1; try lia.
+    inversion G as [|? ? Gx Gxs]; subst. destruct Gx as [Wx Mx].
+    set (f := fun k x => txt (sub lay k) 2 x) in *.
+    set (g := fun k x q => loc c (sub lay k) 2 x q).
+    set (xs := y :: ys) in *.
+    cbn [body_txt] in Hn. fold f in Hn. cbn [txt_list append] in Hn |- *. rewrite app_assoc_s in Hn |- *.
+    change (f 0%nat x) with (txt (sub lay 0) 2 x) in *.
+    assert (S2 : st 2 r) by (eapply st_mono; [|exact Hst]; lia).
+    assert (R1 : st 2 (append (txt_list f (alt_sep (lay [])) 1 xs) r)) by (apply (alt_rest2 lay w); auto).
+    unfold A, alternative_expr. fold (Sq c n).
+    pose proof (Mx (sub lay 0) 2%nat w p _ n ltac:(lia) Wx Hn (mstop_low _ 2 x _ ltac:(lia) R1)) as X.
+    unfold parses in X. cbn [lvl Nat.eqb P] in X. rewrite X. clear X.
+    cbn [loc_list]. fold g. change (g 0%nat x p) with (loc c (sub lay 0) 2 x p).
+    destruct (loc c (sub lay 0) 2 x p) as [x' q1] eqn:E1. cbn [obind fst snd].
+    assert (Hn1 : (String.length (append (txt_list f (alt_sep (lay [])) 1 xs) r) < n)%nat)
+      by (rewrite length_app_s in Hn; lia).
+    pose proof (steps_list f g (alt_sep (lay [])) r n
+                  (do_alternative_expr (Sq c n)) (GoodM c w) (st 2) (fun _ _ => True)
+                  ltac:(intros k0 y0 rr G0 Sr _; apply alt_sep_st2)
+                  ltac:(intros k0 y0 rr q0 G0 Sr _ Hl; apply (alt_step c lay w n k0 y0 rr q0 G0 Sr Hl))
+                  xs 0%nat q1 Gxs (linked_trivial _ _ _ _ _) S2 Hn1) as St.
+    rewrite (loop_p_steps _ _ _ _ _ St).
+    2:{ apply alt_step_fails; cbn [rest]; apply Hst; lia. }
+    2:{ cbn [rest]. exact Hn1. }
+    pose proof (loc_list_nonempty g (fun k q => adv_str (alt_sep (lay []) k) q) 1 y ys q1) as Ne.
+    fold xs in Ne.
+    destruct (loc_list g (fun k q => adv_str (alt_sep (lay []) k) q) 1 xs q1) as [more q2].
+    cbn [obind fst snd] in *. destruct more as [|m0 more]; [congruence|].
+    rewrite from_range_pspan. reflexivity.
+  Qed.
+
+  Lemma core_fb : forall cs sp, Forall (M c) cs -> Core c (Fallback cs sp).
+  Proof.
+    intros cs sp HM lay ctx w p r n Hc W Hn [Hst _]. unfold parses. cbn [prec P body_txt body_loc].
+    cbn [prec] in Hst. cbn [wfb] in W. apply andb_true_iff in W as [W1 W2]. apply Nat.leb_le in W1.
+    pose proof (goodM_of c w cs HM W2) as G.
+    destruct cs as [|x [|y ys]]; cbn [List.length] in W1; try lia.
+    inversion G as [|? ? Gx Gxs]; subst. destruct Gx as [Wx Mx].
+    set (f := fun k x => txt (sub lay k) 1 x) in *.
+    set (g := fun k x q => loc c (sub lay k) 1 x q).
+    set (xs := y :: ys) in *.
+    cbn [body_txt] in Hn. fold f in Hn. cbn [txt_list append] in Hn |- *. rewrite app_assoc_s in Hn |- *.
+    change (f 0%nat x) with (txt (sub lay 0) 1 x) in *.
+    assert (S1 : st 1 r) by (eapply st_mono; [|exact Hst]; lia).
+    assert (R1 : st 1 (append (txt_list f (fb_sep (lay [])) 1 xs) r)) by (apply (fb_rest1 lay w); auto).
+    unfold F, fallback_expr. fold (A c n).
+    pose proof (Mx (sub lay 0) 1%nat w p _ n ltac:(lia) Wx Hn (mstop_low _ 1 x _ ltac:(lia) R1)) as X.
+    unfold parses in X. cbn [lvl Nat.eqb P] in X. rewrite X. clear X.
+    cbn [loc_list]. fold g. change (g 0%nat x p) with (loc c (sub lay 0) 1 x p).
+    destruct (loc c (sub lay 0) 1 x p) as [x' q1] eqn:E1. cbn [obind fst snd].
+    assert (Hn1 : (String.length (append (txt_list f (fb_sep (lay [])) 1 xs) r) < n)%nat)
+      by (rewrite length_app_s in Hn; lia).
+    pose proof (steps_list f g (fb_sep (lay [])) r n
+                  (do_fallback_expr (A c n)) (GoodM c w) (st 1) (fun _ _ => True)
+                  ltac:(intros k0 y0 rr G0 Sr _; apply fb_sep_st1)
+                  ltac:(intros k0 y0 rr q0 G0 Sr _ Hl; apply (fb_step c lay w n k0 y0 rr q0 G0 Sr Hl))
+                  xs 0%nat q1 Gxs (linked_trivial _ _ _ _ _) S1 Hn1) as St.
+    rewrite (loop_p_steps _ _ _ _ _ St).
+    2:{ apply fb_step_fails; cbn [rest]; apply Hst; lia. }
+    2:{ cbn [rest]. exact Hn1. }
+    pose proof (loc_list_nonempty g (fun k q => adv_str (fb_sep (lay []) k) q) 1 y ys q1) as Ne.
+    fold xs in Ne.
+    destruct (loc_list g (fun k q => adv_str (fb_sep (lay []) k) q) 1 xs q1) as [more q2].
+    cbn [obind fst snd] in *. destruct more as [|m0 more]; [congruence|].
+    rewrite from_range_pspan. reflexivity.
+  Qed.
+
+  Lemma flatten_loc_list : forall (lay' : nat -> layout) sepadv xs k q,
+      forallb (wfb true) xs = true ->
+      map flatten_expr (fst (loc_list (fun k f q => loc c (lay' k) 5 f q) sepadv k xs q))
+      = fst (loc_list (fun k f q => loc c (lay' k) 5 f q) sepadv k xs q).
+  Proof.
+    induction xs as [|x xs IH]; intros k q W; [reflexivity|].
+    cbn [forallb] in W. apply andb_true_iff in W as [Wx Wxs]. cbn [loc_list].
+    pose proof (flatten_loc c (lay' k) 5 x (match k with O => q | S _ => sepadv k q end) Wx) as Fx.
+    destruct (loc c (lay' k) 5 x _) as [x' q1]. specialize (IH (S k) q1 Wxs).
+    destruct (loc_list _ sepadv (S k) xs q1) as [rs q2]. cbn [fst map] in *. rewrite Fx, IH. reflexivity.
+  Qed.
+
+  Lemma core_sub : forall root l sp,
+      match root with Sequence fs _ => Forall (M c) fs | _ => True end -> Core c (Subword root l sp).
+  Proof.
+    intros root l sp HM lay ctx w p r n Hc W Hn [Hst [Ex _]]. unfold parses. cbn [prec P].
+    cbn [prec] in Hst. cbn [wfb] in W. apply andb_true_iff in W as [W W3]. apply andb_true_iff in W as [Ww Wl].
+    apply N.eqb_eq in Wl. subst l.
+    destruct root as [| | |fs s0| | | | | |]; try discriminate. cbn [body_txt body_loc] in *.
+    apply andb_true_iff in W3 as [W3 Wadj]. apply andb_true_iff in W3 as [Wlen Wfs]. apply Nat.leb_le in Wlen.
+    pose proof (goodM_of c true fs HM Wfs) as G.
+    destruct fs as [|x [|y ys]]; cbn [List.length] in Wlen; try lia.
+    inversion G as [|? ? Gx Gxs]; subst. destruct Gx as [Wx Mx].
+    set (lay0 := sub lay 0) in *.
+    set (f := fun k x => txt (sub lay0 k) 5 x) in *.
+    set (g := fun k x q => loc c (sub lay0 k) 5 x q).
+    set (xs := y :: ys) in *.
+    assert (S4 : st 4 r) by exact Hst.
+    assert (S5 : st 5 r) by (eapply st_mono; [|exact Hst]; lia).
+    assert (E : is_plain_lit (last (x :: xs) (Sequence [] (mkspan 0 0 0))) = true ->
+                lit_rest false r /\ noq (skips r) = true).
+    { intros Pl. split; [apply c4_lit_rest; apply S4; lia|]. apply Ex. cbn [open_end]. exact Pl. }
+    pose proof (sub_linked lay0 r (x :: xs) 0 _ Wadj Wfs ltac:(discriminate) E) as Lk.
+    cbn [linked] in Lk. destruct Lk as [Lk0 Lk]. fold f in Lk0, Lk.
+    cbn [txt_list append] in Hn |- *. rewrite app_assoc_s in Hn |- *.
+    change (f 0%nat x) with (txt (sub lay0 0) 5 x) in *.
+    assert (R1 : st 5 (append (txt_list f no_sep 1 xs) r)).
+    { apply (chain_rest f no_sep r (GoodM c true) (st 5) sublink); auto.
+      intros k0 y0 rr G0 Sr L0. apply (sub_prop lay0 k0 y0 rr G0 Sr L0). }
+    unfold SW, subword_sequence_expr. fold (U c n).
+    assert (MS : mstop (sub lay0 0) 5 x (append (txt_list f no_sep 1 xs) r)).
+    { split; [exact R1|]. intros _. split.
+      - intros O. apply Lk0. apply open_end_inword; auto.
+      - intros Pl. apply Lk0. exact Pl. }
+    pose proof (Mx (sub lay0 0) 5%nat true p _ n ltac:(lia) Wx Hn MS) as X.
+    unfold parses in X. cbn [lvl Nat.eqb P] in X. rewrite X. clear X.
+    change (fun (_ : nat) (q : pos) => q) with (fun (k : nat) (q : pos) => adv_str (no_sep k) q).
+    cbn [loc_list]. fold g. change (g 0%nat x p) with (loc c (sub lay0 0) 5 x p).
+    pose proof (flatten_loc c (sub lay0 0) 5 x p Wx) as Fx.
+    destruct (loc c (sub lay0 0) 5 x p) as [x' q1] eqn:E1. cbn [obind fst snd] in *.
+    assert (Hn1 : (String.length (append (txt_list f no_sep 1 xs) r) < n)%nat)
+      by (rewrite length_app_s in Hn; lia).
+    pose proof (steps_list f g no_sep r n (U c n) (GoodM c true) (st 5) sublink
+                  ltac:(intros k0 y0 rr G0 Sr L0; apply (sub_prop lay0 k0 y0 rr G0 Sr L0))
+                  ltac:(intros k0 y0 rr q0 G0 Sr L0 Hl; apply (sub_step c lay0 n k0 y0 rr q0 G0 Sr L0 Hl))
+                  xs 0%nat q1 Gxs Lk S5 Hn1) as St.
+    rewrite (loop_p_steps _ _ _ _ _ St).
+    2:{ apply unary_fails; cbn [rest]; apply S4; lia. }
+    2:{ cbn [rest]. exact Hn1. }
+    pose proof (loc_list_nonempty g (fun k q => adv_str (no_sep k) q) 1 y ys q1) as Ne.
+    fold xs in Ne.
+    assert (Wxs : forallb (wfb true) xs = true).
+    { cbn [forallb] in Wfs. apply andb_true_iff in Wfs as [_ Wfs]. exact Wfs. }
+    pose proof (flatten_loc_list (fun k => sub lay0 k) (fun k q => adv_str (no_sep k) q) xs 1 q1 Wxs) as Fl.
+    cbv beta in Fl. change (fun (k : nat) (f0 : expr) (q : pos) => loc c (sub lay0 k) 5 f0 q) with g in Fl.
+    destruct (loc_list g (fun k q => adv_str (no_sep k) q) 1 xs q1) as [more q2].
+    cbn [obind fst snd] in *. destruct more as [|m0 more]; [congruence|].
+    cbn [map] in *. rewrite Fx, Fl. rewrite from_range_pspan. reflexivity.
+  Qed.
+
+  Definition MQ (e : expr) : Prop :=
+    M c e /\ match e with Sequence fs _ => Forall (M c) fs | _ => True end.
+
+  Lemma Forall_MQ : forall cs, Forall MQ cs -> Forall (M c) cs.
+  Proof. induction 1; constructor; auto. destruct H; auto. Qed.
+
+  Theorem all_M : forall e, MQ e.
+  Proof.
+    induction e using expr_ind'; (split; [apply core_to_M|try (cbn iota; constructor)]).
+    - apply core_terminal.
+    - apply core_nonterm.
+    - apply core_command.
+    - apply core_seq. apply Forall_MQ; auto.
+    - apply Forall_MQ; auto.
+    - apply core_alt. apply Forall_MQ; auto.
+    - apply core_optional. apply IHe.
+    - apply core_many1. apply IHe.
+    - apply core_dd. apply IHe.
+    - apply core_fb. apply Forall_MQ; auto.
+    - apply core_sub. destruct IHe as [_ H]. exact H.
+  Qed.
+
+  (** The round trip for expressions: parsing the printed text at the level of its context gives
+      the located tree and stops exactly at the end of the text. *)
+  Theorem expr_roundtrip : forall e lay ctx w p r n,
+      (ctx <= 7)%nat -> wfb w e = true ->
+      (String.length (append (txt lay ctx e) r) < n)%nat -> mstop lay ctx e r ->
+      P c n (lvl ctx) (mkin (append (txt lay ctx e) r) p)
+      = Ok (fst (loc c lay ctx e p), mkin r (snd (loc c lay ctx e p))).
+  Proof. intros e. apply (all_M e). Qed.
+End NaryCores.
